@@ -421,7 +421,7 @@ func (d *c09Dcr) do(method, path string, body any, bearer string, who *dcrClient
 	// hashes now in the store: never in any response
 	d.s.static = d.s.static[:0]
 	d.s.static = append(d.s.static, planted{class: "error-text", value: plantedFailureSecret})
-	d.stores.copyC.each(func(c *goidc.Client) {
+	d.eachClient(func(c *goidc.Client) {
 		if c.HashedSecret != "" {
 			d.s.static = append(d.s.static, planted{class: "secret-hash", value: c.HashedSecret})
 		}
@@ -948,6 +948,7 @@ func init() {
 		s := newScan()
 		c09Mixed(ctx, s)
 		c09DcrHistories(ctx, s)
+		c09DcrMatrix(ctx, s)
 		metaCases, metaNotes := c09JWKS(ctx, s)
 		pw := c09Pairwise(ctx, s)
 		// the mixed histories as model cases: correspondence + the theorem's monitor on the implementation's trace
